@@ -39,7 +39,8 @@ CHECKS["C18"] = dict(
     units=[dict(pkg="provider/mem", test="TestVerifC18Alerts", shards_quick=12, shards_thorough=16, budget_quick=60, budget_thorough=900),
            dict(pkg="api/v2", test="TestVerifC18Silences", shards_quick=8, shards_thorough=16, budget_quick=60, budget_thorough=900),
            dict(pkg="api", test="TestVerifC18Limiter", shards_quick=1, shards_thorough=1, budget_quick=60, budget_thorough=300),
-           dict(pkg="api", test="TestVerifC18LimiterTimeout", shards_quick=1, shards_thorough=1, budget_quick=60, budget_thorough=300)],
+           dict(pkg="api", test="TestVerifC18LimiterTimeout", shards_quick=1, shards_thorough=1, budget_quick=60, budget_thorough=300),
+           dict(pkg="silence", test="TestVerifC18Sched", gomaxprocs=1, shards_quick=1, shards_thorough=1, budget_quick=120, budget_thorough=600)],
 )
 
 CHECKS["C03"] = dict(
